@@ -146,6 +146,34 @@ var progSpecs = []progSpec{
 	{"component_definition", "", "NewHolder", "holder_NewHolder", ""},
 	{"component_definition", "", "NewEmbedHolder", "holder_NewEmbedHolder", ""},
 	{"component_definition", "Meta", "GetAllProperties", "meta_GetAllProperties", ""},
+	{"container/processors", "configQuoteAwarePostProcessors", "Order", "pp_quote_Order", ""},
+	{"container/processors", "configQuoteAwarePostProcessors", "PostProcessAfterInstantiation", "pp_quote_AfterInstantiation", ""},
+	{"container/processors", "configQuoteAwarePostProcessors", "PostProcessComponentFactory", "pp_quote_ComponentFactory", ""},
+	{"container/processors", "dependencyAwarePostProcessors", "Order", "pp_dep_Order", ""},
+	{"container/processors", "dependencyAwarePostProcessors", "PostProcessAfterInstantiation", "pp_dep_AfterInstantiation", ""},
+	{"container/processors", "dependencyAwarePostProcessors", "PostProcessComponentFactory", "pp_dep_ComponentFactory", ""},
+	{"container/processors", "dependencyFunctionAwarePostProcessors", "Order", "pp_depfn_Order", ""},
+	{"container/processors", "dependencyFunctionAwarePostProcessors", "PostProcessAfterInstantiation", "pp_depfn_AfterInstantiation", ""},
+	{"container/processors", "dependencyFunctionAwarePostProcessors", "PostProcessComponentFactory", "pp_depfn_ComponentFactory", ""},
+	{"container/processors", "dependencyFurtherMatchingPostProcessors", "Order", "pp_further_Order", ""},
+	{"container/processors", "dependencyFurtherMatchingPostProcessors", "PostProcessAfterInstantiation", "pp_further_AfterInstantiation", ""},
+	{"container/processors", "expressionTagAwarePostProcessors", "Order", "pp_expr_Order", ""},
+	{"container/processors", "expressionTagAwarePostProcessors", "PostProcessAfterInstantiation", "pp_expr_AfterInstantiation", ""},
+	{"container/processors", "loggerAwarePostProcessors", "Order", "pp_logger_Order", ""},
+	{"container/processors", "loggerAwarePostProcessors", "PostProcessAfterInstantiation", "pp_logger_AfterInstantiation", ""},
+	{"container/processors", "propertiesAwarePostProcessors", "Order", "pp_props_Order", ""},
+	{"container/processors", "propertiesAwarePostProcessors", "PostProcessAfterInstantiation", "pp_props_AfterInstantiation", ""},
+	{"container/processors", "propertiesAwarePostProcessors", "PostProcessComponentFactory", "pp_props_ComponentFactory", ""},
+	{"container/processors", "validateAwarePostProcessors", "Order", "pp_validate_Order", ""},
+	{"container/processors", "validateAwarePostProcessors", "PostProcessAfterInstantiation", "pp_validate_AfterInstantiation", ""},
+	{"container/processors", "valueAwarePostProcessors", "Order", "pp_value_Order", ""},
+	{"container/processors", "valueAwarePostProcessors", "PostProcessAfterInstantiation", "pp_value_AfterInstantiation", ""},
+	{"container/processors", "DefaultComponentPostProcessor", "PostProcessBeforeInitialization", "pp_default_BeforeInitialization", ""},
+	{"container/processors", "DefaultComponentPostProcessor", "PostProcessAfterInitialization", "pp_default_AfterInitialization", ""},
+	{"container/processors", "DefaultInstantiationAwareComponentPostProcessor", "PostProcessBeforeInstantiation", "pp_default_BeforeInstantiation", ""},
+	{"container/processors", "DefaultInstantiationAwareComponentPostProcessor", "PostProcessAfterInstantiation", "pp_default_AfterInstantiation", ""},
+	{"container/processors", "DefaultInstantiationAwareComponentPostProcessor", "PostProcessProperties", "pp_default_Properties", ""},
+	{"container/processors", "loggerAwarePostProcessors", "PostProcessProperties", "pp_logger_Properties", ""},
 }
 
 // conversions whose single argument is passed through unchanged
@@ -159,6 +187,7 @@ type tr struct {
 	recv    string          // receiver variable name ("" for plain functions)
 	pkgs    map[string]bool // imported package names of the file
 	tparams map[string]bool // type parameters (generic functions)
+	valueUse map[string]bool // identifiers that occur as an ARGUMENT of some call in the function
 }
 
 func (t *tr) unsupported(what string, n ast.Node) string {
@@ -411,7 +440,12 @@ func (t *tr) call(c *ast.CallExpr) string {
 				return fmt.Sprintf("(.call %s [%s])", lq("make:"+exprName(c.Args[0])), t.expr(c.Args[1]))
 			}
 			return t.unsupported("make", c)
-		case "new", "panic", "recover", "copy", "delete", "cap":
+		case "new":
+			if len(c.Args) == 1 {
+				return fmt.Sprintf("(.call %s [])", lq("new:"+exprName(c.Args[0]))) // new(T): a pointer to a fresh zero value
+			}
+			return t.unsupported("builtin new", c)
+		case "panic", "recover", "copy", "delete", "cap":
 			return t.unsupported("builtin "+id.Name, c)
 		}
 	}
@@ -605,7 +639,11 @@ func (t *tr) stmt(s ast.Stmt) []string {
 				kind = ".assign"
 			}
 			if len(x.Rhs) == 1 && len(x.Lhs) == 1 && x.Tok == token.DEFINE && isLogging(x.Rhs[0]) {
-				return nil // `logger := syslog.Pref(…)`: every use of it is a dropped logging call
+				if id, ok := x.Lhs[0].(*ast.Ident); !ok || !t.valueUse[id.Name] {
+					return nil // `logger := syslog.Pref(…)`: every use of it is a dropped logging call
+				}
+				// … unless the logger is used as a VALUE (handed to a call): then the definition is an ordinary call
+				return []string{fmt.Sprintf(".define [%s] %s", lq(x.Lhs[0].(*ast.Ident).Name), t.call(x.Rhs[0].(*ast.CallExpr)))}
 			}
 			if len(x.Rhs) == 1 && len(x.Lhs) == 1 && x.Tok == token.ASSIGN {
 				if id, ok := x.Lhs[0].(*ast.Ident); ok && id.Name != "_" && (id.Obj == nil || isPackageLevel(id)) {
@@ -823,6 +861,17 @@ func progOf(repo string, sp progSpec) string {
 			t.tparams[n] = true
 		}
 	}
+	t.valueUse = map[string]bool{}
+	ast.Inspect(fd.Body, func(n ast.Node) bool {
+		if c, ok := n.(*ast.CallExpr); ok {
+			for _, a := range c.Args {
+				if id, ok := a.(*ast.Ident); ok {
+					t.valueUse[id.Name] = true
+				}
+			}
+		}
+		return true
+	})
 	params := t.names(fd.Type.Params)
 	body := t.block(fd.Body.List)
 	// a constructor of a function value — `func F(a…) T { return func(m…) R { body } }` — is translated as the CURRIED
